@@ -15,3 +15,11 @@ Definition mismatches (cs : list wcase) : list nat := wmismatches cs.
 Definition violations (cs : list wcase) : list nat :=
   map w_id (filter (fun c => negb (oracle_case c)) cs).
 Definition count_nontrivial (cs : list wcase) : list nat := [length (filter nontrivial cs)].
+
+(* instantiated side conditions of c09_no_panic on the facts of this run: the further-matching stage
+   comes after candidate collection in the sorted processor list read from the running code *)
+From IocVerif Require Import Proofs.FactoryNoPanic.
+Definition count_unsettled (cs : list wcase) : list nat :=
+  [length (filter (fun c => negb (settled_b (normalise repaired (w_scn c)))) cs)].
+Definition count_pointed_procs (cs : list wcase) : list nat :=
+  [length (filter (fun c => negb (procs_pointless_b (normalise repaired (w_scn c)))) cs)].
